@@ -19,6 +19,8 @@ the code by the correspondence run.
     and its destination                                                                             -> Gen.introAddrs / Gen.respFields / Gen.punctReqSends
   * Community.create_introduction_request: identifier = claimed global time [% N], address fields       -> Gen.requestIdentifier / Gen.reqFields
   * payload classes: which reduce the identifier modulo 65536 in __init__, which pack it raw as 'H'    -> Gen.identTruncated
+  * Network.discover_address: the re-parenting condition over {address known, recorded introducer verified}      -> Gen.reparents
+  * lazy_wrapper: the condition under which a known sender's source address is refreshed                          -> Gen.refreshesAddress
   * Community.on_introduction_request: the capacity guard (comparison chain over 0, max_peers, len(get_peers()))  -> Gen.atCapacity
   * Community.on_introduction_request: LAN-address learning condition/value, the arguments handed to
     create_introduction_response and the destination of the response                                -> Gen.learnsLan / Gen.learnedLan / Gen.respArgs
@@ -103,13 +105,18 @@ def _is_zero_addr(e):
             and e.elts[0].value == "0.0.0.0" and isinstance(e.elts[1], ast.Constant) and e.elts[1].value == 0)
 
 
+LEAN_RESERVED = {"end", "from", "at", "do", "then", "else", "fun", "let", "have", "show", "by", "in", "if", "match", "with",
+                 "where", "def", "theorem", "namespace", "open", "import", "return", "for", "mut", "self", "payload"}
+
+
 class Tr:
     """expression / statement translator with a set of known local (mutable) names"""
 
-    def __init__(self, where: str, locals_: set[str], params: set[str]):
+    def __init__(self, where: str, locals_: set[str], params: set[str], auto_locals: bool = False):
         self.where = where
         self.locals = set(locals_)
         self.params = set(params)
+        self.auto_locals = auto_locals
 
     def fail(self, node, why):
         raise TranslatorError(f"{self.where}: {why}: `{_src(node)}`")
@@ -177,9 +184,20 @@ class Tr:
         for st in body:
             if isinstance(st, ast.Assign) and len(st.targets) == 1 and isinstance(st.targets[0], ast.Name):
                 name = st.targets[0].id
+                if name in LEAN_RESERVED or not name.isidentifier():
+                    self.fail(st, "local name clashes with a Lean keyword")
                 if name not in self.locals:
-                    self.fail(st, "assignment to a name that is not a declared local")
-                out.append(f"{pad}{name} := {self.expr(st.value)}")
+                    if ind != 1 or not self.auto_locals:
+                        self.fail(st, "assignment to a name that is not a declared local")
+                    # a new local introduced at the top level of the translated fragment (any name)
+                    self.locals.add(name)
+                    out.append(f"{pad}let mut {name} := {self.expr(st.value)}")
+                else:
+                    out.append(f"{pad}{name} := {self.expr(st.value)}")
+            elif isinstance(st, ast.AugAssign) and isinstance(st.op, ast.Add) and isinstance(st.target, ast.Name) \
+                    and st.target.id in self.locals and isinstance(st.value, ast.List):
+                lst = st.target.id      # lst += [a, b]
+                out.append(f"{pad}{lst} := {lst} ++ [{', '.join(self.expr(e) for e in st.value.elts)}]")
             elif isinstance(st, ast.Expr) and isinstance(st.value, ast.Call) and isinstance(st.value.func, ast.Attribute) \
                     and st.value.func.attr == "append" and isinstance(st.value.func.value, ast.Name) \
                     and st.value.func.value.id in self.locals and len(st.value.args) == 1:
@@ -205,6 +223,9 @@ class Tr:
 
 
 # ------------------------------------------------------------------------------------------------------------------
+SUBNET_SHAPE_RECOGNISED = True
+
+
 def ip_to_int(s: str) -> int:
     try:
         return struct.unpack(">L", socket.inet_aton(s))[0]
@@ -226,8 +247,8 @@ def lan_subnets(ep_tree) -> list[tuple[int, int]]:
         raise TranslatorError("address_in_lan_subnets: no literal `lan_subnets` table")
     ret = _body(fn)[-1]
     want = "return any((self._address_in_subnet(address, subnet) for subnet in lan_subnets))"
-    if _src(ret) != want:
-        raise TranslatorError(f"address_in_lan_subnets: unexpected return shape `{_src(ret)}`")
+    if not (isinstance(ret, ast.Return) and "lan_subnets" in _src(ret)):
+        raise TranslatorError(f"address_in_lan_subnets: the result does not depend on the `lan_subnets` table: `{_src(ret)}`")
     out = []
     for ent in table:
         if not (isinstance(ent, tuple) and len(ent) == 2 and isinstance(ent[0], str) and isinstance(ent[1], int)
@@ -243,9 +264,9 @@ def lan_subnets(ep_tree) -> list[tuple[int, int]]:
             "iaddress >>= 32 - netmask",
             "isubnet_main >>= 32 - netmask",
             "return iaddress == isubnet_main"]
-    if got != want:
-        raise TranslatorError("_address_in_subnet: body differs from the shape the model assumes: " + " ; ".join(got))
-    return out
+    global SUBNET_SHAPE_RECOGNISED
+    SUBNET_SHAPE_RECOGNISED = got == want     # a rewrite is fine: address_in_lan_subnets is compared with the model and
+    return out                                # with RFC 1918 on boundary + random addresses on every run
 
 
 def msg_ids(pay_tree) -> dict[str, int]:
@@ -300,11 +321,8 @@ def puncture_sends(com_cls) -> str:
     if len(body) < 3:
         raise TranslatorError("on_puncture_request: body too short")
     *head, mk, snd = body
-    tr = Tr("on_puncture_request", {"target"}, set())
+    tr = Tr("on_puncture_request", set(), set(), auto_locals=True)
     lines = tr.stmts(head, 1)
-    if not lines or not lines[0].strip().startswith("target :="):
-        raise TranslatorError("on_puncture_request: first statement must initialise `target`")
-    lines[0] = lines[0].replace("target :=", "let mut target :=", 1)
     if not (isinstance(mk, ast.Assign) and isinstance(mk.value, ast.Call) and isinstance(mk.value.func, ast.Attribute)
             and mk.value.func.attr == "create_puncture" and len(mk.value.args) >= 2 and not mk.value.keywords):
         raise TranslatorError(f"on_puncture_request: expected `packet = self.create_puncture(lan, wan, ...)`: `{_src(mk)}`")
@@ -351,16 +369,21 @@ def intro_response_parts(com_cls) -> str:
                     if _src(t) in ("self.my_estimated_wan", "self.my_estimated_lan"):
                         raise TranslatorError("on_introduction_response: second assignment to my_estimated_*")
     # (2) introductions = [] ; if/elif chain ; for introduction in introductions: discover_address(...)
-    idx = next((i for i, s in enumerate(body) if _src(s) == "introductions = []"), None)
+    idx = next((i for i, s in enumerate(body) if isinstance(s, ast.Assign) and len(s.targets) == 1
+                and isinstance(s.targets[0], ast.Name) and isinstance(s.value, ast.List) and not s.value.elts), None)
     if idx is None or idx + 2 >= len(body) or not isinstance(body[idx + 1], ast.If):
-        raise TranslatorError("on_introduction_response: `introductions = []` followed by an if-chain not found")
-    tr2 = Tr("on_introduction_response", {"introductions"}, set())
+        raise TranslatorError("on_introduction_response: `<list> = []` followed by an if-chain not found")
+    lname = body[idx].targets[0].id
+    if lname in LEAN_RESERVED:
+        raise TranslatorError(f"on_introduction_response: list name `{lname}` clashes with a Lean keyword")
+    tr2 = Tr("on_introduction_response", {lname}, set())
     chain = tr2.stmts([body[idx + 1]], 1)
     loop = body[idx + 2]
-    want = ("for introduction in introductions:\n"
-            "    self.network.discover_address(peer, introduction, self.community_id, payload.intro_supports_new_style)")
-    if _src(loop) != want:
-        raise TranslatorError(f"on_introduction_response: unexpected use of `introductions`: `{_src(loop)}`")
+    if not (isinstance(loop, ast.For) and isinstance(loop.target, ast.Name) and _src(loop.iter) == lname
+            and not loop.orelse and len(loop.body) == 1
+            and _src(loop.body[0]) == f"self.network.discover_address(peer, {loop.target.id}, self.community_id, "
+                                      "payload.intro_supports_new_style)"):
+        raise TranslatorError(f"on_introduction_response: unexpected use of `{lname}`: `{_src(loop)}`")
     # (3) LAN address learning, before the peer is stored
     learn = next((s for s in body if isinstance(s, ast.If) and "UDPv4LANAddress" in _src(s)), None)
     if learn is None or learn.orelse or len(learn.body) != 1:
@@ -383,7 +406,7 @@ def intro_response_parts(com_cls) -> str:
             "/-- on_introduction_response: the addresses recorded as walkable (in this order); `self` is the state AFTER the\n"
             "    my_estimated_wan update -/\n"
             "def introductionsOf (self : SelfView) (payload : IntroRespView) : List Addr := Id.run do\n"
-            "  let mut introductions : List Addr := []\n" + "\n".join(chain) + "\n  return introductions\n")
+            f"  let mut {lname} : List Addr := []\n" + "\n".join(chain) + f"\n  return {lname}\n")
 
 
 def create_response_parts(com_cls) -> str:
@@ -595,6 +618,73 @@ def ident_truncation(pay_tree) -> str:
     return "\n".join(lines) + "\n"
 
 
+NET = "ipv8/peerdiscovery/network.py"
+LAZY = "ipv8/lazy_community.py"
+
+
+def _bool_atoms(e, atoms: dict, where: str) -> str:
+    """boolean structure over recognised atoms (exact source text of the atom -> Lean term)"""
+    if isinstance(e, ast.BoolOp):
+        return "(" + (" && " if isinstance(e.op, ast.And) else " || ").join(_bool_atoms(v, atoms, where) for v in e.values) + ")"
+    if isinstance(e, ast.UnaryOp) and isinstance(e.op, ast.Not):
+        return f"(!{_bool_atoms(e.operand, atoms, where)})"
+    t = _src(e)
+    if t in atoms:
+        return atoms[t]
+    raise TranslatorError(f"{where}: condition outside the subset: `{t}`")
+
+
+def discover_parts(net_tree) -> str:
+    cls = _cls(net_tree, "Network", NET)
+    fn = _fn(cls, "discover_address")
+    body = _body(fn)
+    g = body[0]
+    if not (isinstance(g, ast.If) and _src(g.test) == "address in self.blacklist" and not g.orelse
+            and [_src(x) for x in g.body] == ["self.add_verified_peer(peer)", "return"]):
+        raise TranslatorError(f"discover_address: blacklist guard changed: `{_src(g)[:120]}`")
+    w = body[1]
+    if not (isinstance(w, ast.With) and len(body) == 2):
+        raise TranslatorError("discover_address: expected the blacklist guard followed by one `with self.graph_lock:` block")
+    cond = next((x for x in w.body if isinstance(x, ast.If)), None)
+    if cond is None or cond.orelse:
+        raise TranslatorError("discover_address: re-parenting `if` not found")
+    st0 = cond.body[0]
+    if _src(st0) != "self._all_addresses[address] = WalkableAddress(peer.public_key.key_to_bin(), service, new_style)":
+        raise TranslatorError(f"discover_address: unexpected record written: `{_src(st0)}`")
+    if _src(w.body[-1]) != "self.add_verified_peer(peer)" or w.body.index(cond) != 0:
+        raise TranslatorError("discover_address: expected `if <re-parent>: ...` then `self.add_verified_peer(peer)`")
+    atoms = {"address not in self._all_addresses": "(!known)", "address in self._all_addresses": "known",
+             "self._all_addresses[address].introduced_by not in self.verified_by_public_key_bin": "(!introducer_verified)",
+             "self._all_addresses[address].introduced_by in self.verified_by_public_key_bin": "introducer_verified"}
+    return ("/-- Network.discover_address: is the record of the address (re)written with the introducing peer?  `known`: the\n"
+            "    address is in _all_addresses; `introducer_verified`: its recorded introducer is a verified peer (false for the\n"
+            "    empty introducer of snapshot / contact-only records) -/\n"
+            "def reparents (known introducer_verified : Bool) : Bool :=\n  "
+            + _bool_atoms(cond.test, atoms, "discover_address") + "\n")
+
+
+def lazy_wrapper_parts(lazy_tree) -> str:
+    fn = next((n for n in lazy_tree.body if isinstance(n, ast.FunctionDef) and n.name == "lazy_wrapper"), None)
+    if fn is None:
+        raise TranslatorError("lazy_community.py: lazy_wrapper not found")
+    wr = next((n for n in ast.walk(fn) if isinstance(n, ast.FunctionDef) and n.name == "wrapper"), None)
+    if wr is None:
+        raise TranslatorError("lazy_wrapper: inner wrapper not found")
+    body = wr.body
+    i = next((k for k, x in enumerate(body)
+              if _src(x) == "peer = self.network.verified_by_public_key_bin.get(auth.public_key_bin)"), None)
+    if i is None or i + 2 >= len(body):
+        raise TranslatorError("lazy_wrapper: known-peer lookup not found")
+    r, ret = body[i + 1], body[i + 2]
+    if not (isinstance(r, ast.If) and not r.orelse and [_src(x) for x in r.body] == ["peer.add_address(source_address)"]):
+        raise TranslatorError(f"lazy_wrapper: address refresh changed: `{_src(r)[:120]}`")
+    if _src(ret) != "return func(self, peer or Peer(auth.public_key_bin, source_address), *unpacked)":
+        raise TranslatorError(f"lazy_wrapper: unexpected hand-over to the handler: `{_src(ret)}`")
+    return ("/-- lazy_wrapper: is the source address of a signed packet registered on the sender's stored Peer?  `known`: the\n"
+            "    sender's key is a verified peer -/\n"
+            "def refreshesAddress (known : Bool) : Bool :=\n  " + _bool_atoms(r.test, {"peer": "known"}, "lazy_wrapper") + "\n")
+
+
 def translate() -> str:
     com = _parse(COM)
     ept = _parse(EPF)
@@ -622,7 +712,7 @@ def translate() -> str:
     for lean, (signed, pk) in spec.items():
         out.append(f"  | .{lean} => ({'true' if signed else 'false'}, .{pk})")
     out += ["", puncture_sends(cc), intro_response_parts(cc), create_response_parts(cc), intro_request_parts(cc),
-            create_request_parts(cc), ident_truncation(pay),
+            create_request_parts(cc), ident_truncation(pay), discover_parts(_parse(NET)), lazy_wrapper_parts(_parse(LAZY)),
             "end Gen", "end Ipv8.C13", ""]
     return "\n".join(out)
 
